@@ -236,6 +236,10 @@ pub fn add_noise(rg: &mut Rg, e: &mut EnumSpec) {
         if rg.chance(1, 2) {
             e.macro_args.push(("attrs".to_string(), "meta".to_string(), String::new()));
         }
+    } else if e.macro_args.is_empty() && rg.chance(1, 8) {
+        // ... or the item sits in the macro body and the caller supplies the string literals of the variant
+        // attributes, or the names of the named fields: a placeholder and the field it names then differ in hygiene
+        e.macro_args.push((if rg.chance(1, 2) { "lits" } else { "fids" }.to_string(), "tt".to_string(), String::new()));
     }
     // a local item shadowing a prelude name: generated code must not depend on what `Default` means here
     if rg.chance(1, 5) {
@@ -1865,7 +1869,7 @@ pub fn plainify(e: &mut EnumSpec) -> bool {
         *e = b;
         false
     };
-    if e.macro_args.iter().all(|(n, k, _)| (n == "n" && k == "ident") || n == "body" || n == "attrs") {
+    if e.macro_args.iter().all(|(n, k, _)| (n == "n" && k == "ident") || n == "body" || n == "attrs" || n == "lits" || n == "fids") {
         e.macro_args.clear();
     }
     if e.variants.is_empty() || e.variants.len() > 12 || !e.macro_args.is_empty() || e.base_const.is_some() {
